@@ -87,6 +87,30 @@ def scenario_past(tp):
                 {'clock': cname, 'quant': 0, 'seed': None, 'body': body}]}
 
 
+def scenario_retie(tp):
+    """Directed template: several routines wait for the same beat of one
+    TempoClock; one of the earlier ones is scheduled again for that very
+    beat (it moves behind the others), then the tempo changes while all are
+    pending.  They share a random generator, so the order in which they wake
+    up shows in the values they draw - and it must be the same in both
+    modes.  Everything that races is on one clock: race-free."""
+    n = 3 + tp.draw(2)
+    wait = tp.choice([2, 3])
+    kids = []
+    for i in range(n):
+        kids.append({'clock': 't0', 'quant': 0, 'seed': None,
+                     'body': [['wait', wait], ['draw', 'rand_i'], ['rec'],
+                              ['draw', 'rand_f'], ['msg', 300 + i]]})
+    moved = 1 + tp.draw(n - 1)
+    root = [['spawn', 1 + i] for i in range(n)]
+    root += [['wait', 0.5], ['resched', moved, wait - 0.5],
+             ['wait', 0.25], ['tempo', 0, tp.choice([2, 0.5, 4])],
+             ['wait', 8.0], ['rec']]
+    return {'t0': rprog.T0, 'clocks': [{'tempo': 1, 'beats': 0}],
+            'routines': [{'clock': 'sys', 'quant': None,
+                          'seed': tp.draw(1000), 'body': root}] + kids}
+
+
 def gen_appsys(tp, tier):
     """NRT only: a program over AppClock as well.  In non-real-time mode
     AppClock keeps logical time like SystemClock (no drift), so the program
@@ -158,6 +182,9 @@ def gen_case(tp, tier):
               'cost': tp.choice([0.0, 5e-6]), 'stall_pm': 0,
               'epoch': tp.choice(['exact', 'real']),
               'time_yield': bool(tp.draw(2)), 'max_steps': 30000}
+        if tp.draw(2):
+            return {'prog': scenario_retie(tp), 'knobs': kn, 'perturb': 1,
+                    'family': 0, 'scenario': 'retie'}
         return {'prog': scenario_past(tp), 'knobs': kn, 'perturb': 1,
                 'family': 0, 'scenario': 'past'}
     if tp.draw(8) == 0:
@@ -573,7 +600,7 @@ def run_case(case, tape, ctx):
                              f'routine {victim} drew more')
     # 1. RT vs NRT
     ok, why = well_synchronised(prog, nrt['trace'])
-    if case.get('scenario') == 'past':
+    if case.get('scenario') in ('past', 'retie'):
         ok, why = True, None       # race-free by construction
     if ok and not case.get('scenario') and any(
             st[0] == 'resume' and len(st) > 2
@@ -582,13 +609,13 @@ def run_case(case, tape, ctx):
         # the same instant without leaving a trace of the second wake-up:
         # judged only in the directed scenario, which keeps them apart
         ok, why = False, ('moved-routine',)
-    if ok and case.get('scenario') != 'past':
+    if ok and case.get('scenario') not in ('past', 'retie'):
         # a routine that one world never got to run leaves no event there:
         # the real-time timeline must be free of conflicts as well
         # (physical order: unrelated events of different clocks inside one
         # margin window may appear in either order)
         ok, why = well_synchronised(prog, rt['trace'], slack=MARGIN)
-    if ok and case.get('scenario') != 'past':
+    if ok and case.get('scenario') not in ('past', 'retie'):
         # ... and so must the union of both (each world may have silenced a
         # different one of two routines that race, e.g. each pausing the
         # other at the same instant)
